@@ -261,14 +261,19 @@ Definition eqs (g : gate) : list (K * K) :=
   | Opaque _ => []
   end.
 
-(* the "exactly zero" flag of the first parameter is truthful *)
+(* the "exactly zero" flags are truthful *)
+Definition fl_ang (a : ang) : Prop := az a = true -> co a = 1 /\ si a = 0.
+Definition fl_hyp (h : hyp) : Prop := hz h = true -> ch h = 1 /\ sh h = 0.
+Definition fl_rp (r : rp) : Prop := rz r = true -> rv r = 0.
 Definition zero_flag_ok (g : gate) : Prop :=
   match g with
-  | Dgate r _ | Xgate r | Zgate r => rz r = true -> rv r = 0
-  | Pgate r wr wth _ | CXgate r wr wth | CZgate r wr wth =>
-      (rz r = true -> rv r = 0) /\ (hz wr = true -> ch wr = 1 /\ sh wr = 0) /\ (az wth = true -> co wth = 1 /\ si wth = 0)
-  | Sgate r _ | S2gate r _ => hz r = true -> ch r = 1 /\ sh r = 0
-  | Rgate a | BSgate a _ | MZgate a _ | sMZgate a _ => az a = true -> co a = 1 /\ si a = 0
+  | Dgate r phi => fl_rp r /\ fl_ang phi
+  | Xgate r | Zgate r => fl_rp r
+  | Sgate r phi | S2gate r phi => fl_hyp r /\ fl_ang phi
+  | Rgate a => fl_ang a
+  | Pgate r wr wth wphi => fl_rp r /\ fl_hyp wr /\ fl_ang wth /\ fl_ang wphi
+  | BSgate a b | MZgate a b | sMZgate a b => fl_ang a /\ fl_ang b
+  | CXgate r wr wth | CZgate r wr wth => fl_rp r /\ fl_hyp wr /\ fl_ang wth
   | Fouriergate => True
   | Opaque _ => True
   end.
